@@ -87,10 +87,16 @@ def classify(fam, ty, ps, fail):
     if why == "inf" and fam in ("exp1", "exp", "gamma", "chisq", "fisherf", "studentt", "poisson", "pert", "beta"):
         if (word >> 11) == 0:
             return "exp1-tail-zero-draw"
+    if fam in ("fisherf", "studentt") and why in ("inf", "-inf", "NaN") and (word >> 12) == 2**51:
+        return "zero-normal-division"
     if fam == "zipf" and why not in ("inf", "-inf", "NaN") and val != "panic":
-        top = (word >> 40) if ty == "f32" else (word >> 11)
-        if top == (2**24 - 1 if ty == "f32" else 2**53 - 1):
+        # (a) the largest draws: floor(inv_cdf(u) + 1) rounds up to n + 1
+        if word >= 0 and (word >> 52) == 0xFFF:
             return "zipf-top-draw"
+        # (b) s within a few ulp of 1: (pt*(1-s)+s).powf(1/(1-s)) cancels catastrophically
+        s_val = S.bits_val(ty, ps[1])
+        if s_val != 1.0 and abs(s_val - 1.0) <= 4 * (2.0 ** -23 if ty == "f32" else 2.0 ** -52):
+            return "zipf-s-near-one"
     return None
 
 
